@@ -17,6 +17,16 @@ import (
 //invokeAfterMsg#cb9f372d {X:Type} msg_id:long query:!X = X;
 //invokeAfterMsgs#3dc4b4f0 {X:Type} msg_ids:Vector<long> query:!X = X;
 
+// the generator skips these three methods (their query is generic), so their params are registered here, like
+// the params of every generated method are in init_gen.go
+func init() {
+	tl.RegisterObjects(
+		&InitConnectionParams{},
+		&InvokeWithLayerParams{},
+		&InvokeWithTakeoutParams{},
+	)
+}
+
 type InitConnectionParams struct {
 	ApiID          int32             // Application identifier (see. App configuration)
 	DeviceModel    string            // Device model
